@@ -52,11 +52,49 @@ def gen_c07(rnd):
                 stdin=[rnd.choice(keys) for _ in range(rnd.randint(3, 40))], quit_cb=None, quit_screen=quit_screen, exc_handler=False, run_empty=False, deliver_at=[])
 
 
+LEAN_MODULES = ["C07", "C07b"]
+
+
+def gen_dialog(rnd):
+    """the library's own dialogs (adv_widgets): a kept dialog object is given lines in turn"""
+    kind = rnd.choice(["yesno", "yesno", "password", "help", "error", "getinput", "getinput", "getinput"])
+    words = ["yes", "no", "", "y", "YES", "No", "yes ", " no", "maybe", "abc", "ab", "abcd", "a", "0", "x" * 9]
+    c = {"op": "dialog", "kind": kind, "keys": [rnd.choice(words) for _ in range(rnd.randint(1, 6))]}
+    if kind == "getinput":
+        c["conds"] = [rnd.choice([["min_len", rnd.randint(0, 4)], ["max_len", rnd.randint(0, 5)], ["equals", rnd.choice(words)], ["differs", rnd.choice(words)],
+                                  ["starts_with", rnd.choice(["a", "y", "n"])]]) for _ in range(rnd.randint(0, 4))]
+    return c
+
+
+def dialog_rule(case, obs):
+    """the statement of the dialogs' documentation, line by line"""
+    st = None
+    for key, o in zip(case["keys"], obs):
+        k = case["kind"]
+        if k == "yesno":
+            exp = ("CLOSE", True) if key == "yes" else ("CLOSE", False) if key == "no" else ("DISCARDED", st)
+        elif k == "password": exp = ("CLOSE", key) if key else ("DISCARDED", st)
+        elif k == "help": exp = ("CLOSE", None)
+        elif k == "error": exp = ("exit1", None)
+        else:
+            ok = True; n = 0
+            for kind, a in case["conds"]:
+                n += 1
+                if not {"min_len": len(key) >= a if kind == "min_len" else None, "max_len": len(key) <= a if kind == "max_len" else None, "equals": key == a, "differs": key != a,
+                        "starts_with": key[:1] == a}[kind]:
+                    ok = False; break
+            exp = ("CLOSE", key) if ok else ("DISCARDED", st)
+            if o.get("asked") != n: return "%d acceptance conditions were asked about %r, expected %d (in order, up to the first that rejects)" % (o.get("asked"), key, n)
+        if (o["ret"], o["state"]) != exp: return "%s dialog given %r: returned %r and remembers %r; expected %r / %r" % (k, key, o["ret"], o["state"], exp[0], exp[1])
+        st = o["state"]
+    return None
+
+
 def generate(rnd, tier):
     n = 700 if tier == "quick" else 8000
     sid = SidCounter()
     cases = [gen_c07(rnd) for _ in range(n)] + [gen_case(rnd, "tame", sid) for _ in range(n // 3)]
-    return [with_cc(c) for c in cases]
+    return [with_cc(c) for c in cases] + [gen_dialog(rnd) for _ in range(n // 2)]
 
 
 def reference(case):
@@ -141,6 +179,7 @@ def quit_rule(case, obs):
 
 
 def monitor(case, obs):
+    if case.get("op") == "dialog": return dialog_rule(case, obs)
     v = quit_rule(case, obs)
     if v: return v
     if case.get("mode") != "c07": return None
@@ -159,5 +198,35 @@ def monitor(case, obs):
     return None
 
 
+from harness.props import session as _s
+
+
+def run_impl(case):
+    if case.get("op") == "dialog":
+        from harness.impl.render import run_impl as pure_run
+        return pure_run(case)
+    return _s.run_impl(case)
+
+
+def model_case(case): return case if case.get("op") == "dialog" else _s.model_case(case)
+def with_cc(case): return case if case.get("op") == "dialog" else _s.with_cc(case)
+def strip_obs(obs): return _s.strip_obs(obs) if isinstance(obs, dict) else obs
+def outcome(case, obs): return ("dialog/" + case["kind"]) if case.get("op") == "dialog" else _s.outcome(case, obs)
+
+
+def compare(case, impl, model):
+    if case.get("op") == "dialog":
+        return None if impl == model else "implementation %r / model %r" % (impl, model)
+    return _s.compare(case, impl, model)
+
+
+def shrink(case):
+    if case.get("op") == "dialog":
+        for i in range(len(case["keys"])): yield dict(case, keys=case["keys"][:i] + case["keys"][i + 1:])
+        return
+    yield from _s.shrink(case)
+
+
 def nontrivial(case, obs):
+    if case.get("op") == "dialog": return len(case["keys"]) >= 2
     return sum(1 for e in obs["log"] if e[0] == "cb" and e[2] == "input") >= 3
